@@ -127,6 +127,22 @@ Theorem c03_no_panic_zero_columns : forall W d v,
 Proof. exact text_no_panic_zero. Qed.
 Print Assumptions c03_no_panic_zero_columns.
 
+(* Rows and headers holding MORE cells than the table has columns (a row
+   attached to two tables and extended through the other one, D21): the
+   renderer does not panic and still renders exactly the layout, in which
+   cells beyond the column count are not shown and widen nothing.  Of the
+   view's shape only the alignment slots are needed. *)
+Theorem c03_no_panic_any_rows : forall W d v,
+  length (v_align v) = S (v_ncols v) -> dec_ok d -> cells_ok W v -> text_render W d v <> Panic.
+Proof. exact text_no_panic_any_rows. Qed.
+Print Assumptions c03_no_panic_any_rows.
+
+Theorem c03_refines_any_rows : forall W d v,
+  1 <= v_ncols v -> length (v_align v) = S (v_ncols v) -> dec_ok d -> cells_ok W v ->
+  text_render W d v = Ok (concat (map flatten (layout W d v))).
+Proof. exact text_refines_any_rows. Qed.
+Print Assumptions c03_refines_any_rows.
+
 Theorem c03_empty_decoration_err : forall W d v,
   is_empty_decoration d = true -> text_render W d v = Err.
 Proof. exact empty_decoration_err_proof. Qed.
